@@ -165,8 +165,6 @@ def dtypeText (otherName : Nat → String) : Option DType → String
 
 /-- the footer, as data -/
 inductive Footer where
-  /-- 1-D with `shape == ()`: `# empty` -/
-  | emptyVector
   | vector (n : Nat) (dt : String)
   /-- `# 0×0 table` -/
   | emptyTable
@@ -174,7 +172,6 @@ inductive Footer where
   deriving DecidableEq, Repr
 
 def Footer.render : Footer → String
-  | .emptyVector => "# empty"
   | .vector n dt => "# " ++ toString n ++ " element vector <" ++ dt ++ ">"
   | .emptyTable => "# 0×0 table"
   | .table r c ty => "# " ++ toString r ++ "×" ++ toString c ++ " table <" ++ ty ++ ">"
@@ -194,10 +191,10 @@ structure Out where
   bare : Bool
   deriving DecidableEq, Repr
 
-/-- `_repr_vector` (via `_printr`: a vector with `shape == ()` only prints `# empty …`);
-    `rows` is the current global `_REPR_ROWS_DEFAULT` -/
+/-- `_repr_vector` (via `_printr`: an empty vector — `shape == ()` — prints only its footer, which states the count 0 and
+    the dtype like any other vector's); `rows` is the current global `_REPR_ROWS_DEFAULT` -/
 def reprVector (otherName : Nat → String) (rows : Nat) (v : Col) : Res Out :=
-  if v.cells.isEmpty then .ok { header := [], body := [], footer := .emptyVector, bare := true }
+  if v.cells.isEmpty then .ok { header := [], body := [], footer := .vector 0 (dtypeText otherName v.dtype), bare := true }
   else
     match formatColumn (rows / 2) v with
     | .error e => .error e
@@ -405,9 +402,6 @@ def startsWithList : List Char → List Char → Bool
 def judge (o : Out) (lines : List String) : Option String :=
   if o.bare then
     match o.footer, lines with
-    | .emptyVector, [l] =>
-      if startsWithList l.toList "# empty".toList then none
-      else some "empty vector: expected a single line starting with '# empty'"
     | f, [l] => if l == f.render then none else some "footer differs"
     | _, _ => some "expected a single line"
   else
